@@ -343,6 +343,7 @@ struct sim {
 	bool intr_fired;
 	bool mode_switched;
 	bool other_left, cb_count_paused;
+	bool ever_accept_any;
 	bool slow_started;
 	uint8_t slow_rest[40]; /* second part of an unsolicited PDU that is delivered in two parts (event kinds 8, 9) */
 	size_t slow_rest_len;
